@@ -179,6 +179,43 @@ let handle line =
       (match utf8_encode s with
        | None -> print_str [ n_of_int 78 ]
        | Some s -> print_str (n_of_int 83 :: s))
+  | "FL" ->
+      (* FL guarded nops (S n c t tag | W n | B | E ok)* nnodes node* : run the flush/send
+         race model, then quiesce; print written / buffer / sent as "n c t tag" groups *)
+      let guarded = next_bool c in
+      let nops = next_int c in
+      let rec ops i acc =
+        if i = 0 then List.rev acc
+        else
+          let o =
+            match next c with
+            | "S" ->
+                let n = next_z c in
+                let ch = next_z c in
+                let t = next_z c in
+                let tag = next_z c in
+                FSend (((n, ch), t), tag)
+            | "W" -> FWake (next_z c)
+            | "B" -> FBegin
+            | "E" -> FEnd (next_bool c)
+            | x -> failwith ("bad flush op " ^ x)
+          in
+          ops (i - 1) (o :: acc)
+      in
+      let ol = ops nops [] in
+      let nodes = next_list c next_z in
+      let s = quiesce guarded (frun guarded finit ol) nodes in
+      let show_entries l =
+        List.concat
+          (List.map
+             (fun (((n, ch), t), tag) ->
+               str_of_Z n @ [ n_of_int 32 ] @ str_of_Z ch @ [ n_of_int 32 ] @ str_of_Z t
+               @ [ n_of_int 32 ] @ str_of_Z tag @ [ n_of_int 59 ])
+             l)
+      in
+      print_str
+        (show_entries s.f_written @ [ n_of_int 124 ] @ show_entries s.f_buf @ [ n_of_int 124 ]
+        @ show_entries s.f_sent)
   | t -> failwith ("unknown op " ^ t)
 
 let () =
